@@ -24,3 +24,12 @@ def read_log(logpath: str):
     except OSError:
         pass
     return out
+
+
+def arm_sorted(prefix: str, kill_at: int, logpath: str, tear: int = 0) -> None:
+    """Like arm(), but first pins the directory-listing order (sorted): the order in which e.g. `--wipe` deletes files
+    follows readdir order, which on tmpfs depends on the creation history of the directory and so differs between a
+    directory and its restored snapshot.  Pinning it makes the mutation sequence of a command reproducible."""
+    from . import hooks
+    hooks.dirlist_order('sorted')
+    arm(prefix, kill_at, logpath, tear)
